@@ -55,7 +55,7 @@ fn spec_cmp(a: &[Node], b: &[Node]) -> Ordering {
 pub fn standin_identifier_between(r: &mut Report, tier: &str) {
     let depth = 3;
     let thorough = tier == "thorough";
-    r.target = "Identifier::between (assumed contract in 15_identifier.rs): strictly between two distinct bounds in either argument order, strictly beyond a single non-empty bound, last marker == the given marker; Identifier::cmp == lexicographic order with prefix rule".into();
+    r.target = "Identifier::between run on the real crate (its contract between_post is verified in 15_identifier.rs modulo the DynIter stand-in): strictly between two distinct bounds in either argument order, strictly beyond a single non-empty bound, last marker == the given marker; Identifier::cmp == lexicographic order with prefix rule".into();
     r.bound = format!("all identifiers of path depth <= {} over rationals {} and markers {{1, 3, 5}}; every ordered pair as (low, high) with every marker in 0..=6 (below, equal to, between and above the stored markers)", depth, if thorough { "{-1, 0, 1/2, 1}" } else { "{0, 1/2, 1}" });
     let rats: Vec<BigRational> = if thorough { vec![rat(-1, 1), rat(0, 1), rat(1, 2), rat(1, 1)] } else { vec![rat(0, 1), rat(1, 2), rat(1, 1)] };
     let ids = all_ids(depth, &rats, &[1, 3, 5]);
